@@ -702,6 +702,45 @@ def t_forward(rng, variant):
     raise ValueError(variant)
 
 
+def t_forward_deep(rng, depth, in_function, nest_first=True):
+    """a forward-declared function referenced from `depth` (3..5) function levels below the scope S of its
+    declaration; the nest is declared BEFORE the fulfilment (so every level only holds a pending capture) and called
+    AFTER it.  S is the root or a function `main(bias)`.  In `main` the forward declaration sits at cell c = 2 + k;
+    every intermediate level declares a *decoy* function of the same signature at exactly that cell index (literal
+    `let`s in front, literal body: no other cells), each with its own result: a lookup that lands in the wrong scope
+    silently calls a decoy (wrong value) instead of panicking."""
+    k = rng.randrange(0, 3)
+    c = 2 + k
+
+    def nest(i):
+        with_param = rng.random() < 0.4
+        params = [(f'a{i}', INT, None)] if with_param else []
+        nlets = c - (2 if with_param else 1)
+        decls = [('let', f'n{i}_{j}', ('i', 100 * i + j), INT) for j in range(nlets)]
+        decls.append(('fn', f'decoy{i}', [('x', INT, None)], INT, [], ('i', 7000 + i)))
+        if i == depth:
+            body = ('c', 'late', [('i', i)])
+        else:
+            inner = nest(i + 1)
+            decls.append(inner)
+            call = ('c', f'f{i + 1}', [('i', i)] if inner[2] else [])
+            # intermediate levels sometimes use the forward function themselves (one/two levels down: controls)
+            body = ('c', 'add', [call, ('c', 'late', [('i', 50 + i)])]) if rng.random() < 0.3 else call
+        return ('fn', f'f{i}', params, INT, decls, body)
+
+    f1 = nest(1)
+    call1 = ('c', 'f1', [('i', 9)] if f1[2] else [])
+    if in_function:
+        late = ('fn', 'late', [('x', INT, None)], INT, [], ('c', 'add', [('c', 'mul', [('v', 'x'), ('i', 10)]), ('v', 'bias')]))
+        pre = [('let', f'm{j}', ('i', 3 + j), INT) for j in range(k)]
+        body = pre + [fwd('late', [('x', INT)], INT)] + ([f1, late] if nest_first else [late, f1])
+        main = ('fn', 'main', [('bias', INT, None)], INT, body, ('c', 'add', [call1, ('v', 'bias')]))
+        return [main, ('let', 'z', ('c', 'main', [('i', 0)]), INT), ('let', 'w', ('c', 'main', [('i', 100)]), INT)]
+    late = ('fn', 'late', [('x', INT, None)], INT, [], ('c', 'add', [('c', 'mul', [('v', 'x'), ('i', 10)]), ('i', 2)]))
+    return [fwd('late', [('x', INT)], INT)] + ([f1, late] if nest_first else [late, f1]) + \
+        [('let', 'r', call1, INT), ('let', 'r2', ('c', 'add', [call1, ('i', 1)]), INT)]
+
+
 def t_forward_escape(variant):
     """KNOWN DEFECT family: a function that captured a not yet fulfilled forward function reads it, at run time,
     through the *caller's* scope chain (runtime_scope.rs PendingCapture + the scope-parent search by id)"""
@@ -908,6 +947,11 @@ def run(chk):
         cases.append(FCase(t_defaults(rng), "defaults"))
     for v in range(3):
         cases.append(FCase(t_forward(rng, v), "forward"))
+    for depth in (3, 4, 5):
+        for in_function in (True, False):
+            for rep in range(2 if quick else 12):
+                cases.append(FCase(t_forward_deep(rng, depth, in_function), f"forward-deep-{depth}"))
+        cases.append(FCase(t_forward_deep(rng, depth, True, nest_first=False), f"forward-deep-{depth}"))
     cases.append(FCase(t_forward_escape(0), "fwd-escape"))
     cases.append(FCase(t_forward_escape(1), "fwd-escape"))
     cases.append(FCase(t_forward_reenter(), "fwd-reenter"))
@@ -919,7 +963,7 @@ def run(chk):
     res = three_way(chk, cases, "c03", nontrivial=nontrivial)
     shown = set()
     for c, ci, cm, co, ev in res:
-        if c.tag not in shown and c.tag in ("distance-6", "defaults", "forward"):
+        if c.tag not in shown and c.tag in ("distance-6", "defaults", "forward", "forward-deep-3"):
             shown.add(c.tag)
             chk.sample({"program": c.src, "impl": ci}, limit=12)
     # the oracle must not have skipped the targeted programs
@@ -972,7 +1016,7 @@ def run(chk):
 
     return chk.finish(rule="generated core programs + targeted templates (captures at ancestor distance 1..6 through fn/lambda mixes, the same cell index captured at several distances (depth 3..6, every level's two parameters mentioned by every inner level in shuffled order), shadowing chains "
                            "incl. same-scope redeclaration, escaping closures, recursion through captured recursion cells, displaying defaults, "
-                           "forward declarations) three ways (implementation / Lean core model / Python reference evaluator); the same programs' "
+                           "forward declarations incl. a forward function referenced 3..5 levels below its declaration with decoys at the same cell index) three ways (implementation / Lean core model / Python reference evaluator); the same programs' "
                            "compiled structure (cells, capture pairs, declarations, Value references, forward-requirement counts) real compiler vs "
                            "Lean scope model; forward-gate programs; identifier spellings over {i,t,e,m,0,1,9,_,a} up to length 4; "
                            "non-trivial = targeted or containing a lambda (behavioural), capture chain of length >= 2 (structural); distinct by source text")
